@@ -359,9 +359,12 @@ def applyWrites (ws : List (Nat × Node)) (n : INode) : INode :=
 
 /-! ### the guard of "deep-equal inputs give an all-two-sided diff", executable -/
 
-/-- `eq` is reflexive, symmetric and transitive on the list -/
+/-- `eq` is reflexive, symmetric and transitive on the list: it is reflexive and related elements
+    have the same row of the relation's table (the table is computed once: |S|² evaluations) -/
 def equivOnB (eq : INode → INode → Bool) (S : List INode) : Bool :=
-  S.all fun a => eq a a && S.all fun b => !eq a b || (eq b a && S.all fun c => !eq b c || eq a c)
+  let rows := S.map fun a => (a, S.map (eq a))
+  S.all (fun a => eq a a) &&
+    rows.all fun ra => rows.all fun rb => !eq ra.1 rb.1 || ra.2 == rb.2
 
 /-- `eq` is an equivalence on `S`, on the children of `S`, on their children, … (`n` = fuel; the
     number of nodes below `S` plus one suffices) -/
